@@ -756,7 +756,69 @@ def failed_dumps(ctx, n):
             ctx.violation("history", f"failed-dumps-workload-raises:{type(e).__name__}", dict(det, error=lib.exc_sig(e)))
 
 
+def union_bits_across_objects_and_extended_elements(ctx):
+    """(a) Unions with bit-field members on cstruct objects of different byte orders, created in either order: each
+    slices and writes by its own byte order, and switching one object's order changes nothing on the other.
+    (b) A type used as the element of a null-terminated array, parsed, then extended through the API, then parsed again:
+    the result is the one of a fresh object on which the type was extended before anything was parsed."""
+    text = "union flags { uint8 hi : 4; int8 top : 2; uint8 raw; };\nunion wide { uint16 a : 4; uint16 raw; };"
+
+    def facts(cs):
+        f, w = cs.flags(b"\xa5"), cs.wide(b"\x12\x34")
+        return (int(f.hi), int(f.top), int(f.raw), int(w.a), int(w.raw), cs.flags(hi=3).dumps().hex(), cs.wide(a=5).dumps().hex())
+
+    want = {"<": (5, 1, 0xA5, 2, 0x3412, "03", "0500"), ">": (10, 2, 0xA5, 1, 0x1234, "30", "5000")}
+    for compiled in (True, False):
+        for first, second in (("<", ">"), (">", "<")):
+            ctx.evaluation(("union-bits-across-objects", compiled, first))
+            ctx.cell("union-bit-fields-on-objects-of-different-byte-orders")
+            det = {"text": text, "compiled": compiled, "first": first, "workload": "union-bits-across-objects"}
+            try:
+                a = lib.load(text, first, False, compiled)
+                b = lib.load(text, second, False, compiled)
+                got = [facts(a), facts(b)]
+                a.endian = second
+                got.append(facts(b))
+                got.append(facts(a))
+                a.endian = first
+                got.append(facts(b))
+                exp = [want[first], want[second], want[second], want[second], want[second]]
+            except Exception as e:  # noqa: BLE001
+                ctx.violation("isolation", f"union-bits-across-objects-raise:{type(e).__name__}", dict(det, error=lib.exc_sig(e)))
+                continue
+            if got != exp:
+                ctx.violation("isolation", "union-bit-field-follows-the-byte-order-of-another-cstruct-object", dict(det, got=repr(got), want=repr(exp)))
+            else:
+                ctx.event("union_bits_across_objects_checked")
+    for compiled in (True, False):
+        for kind in ("struct", "union"):
+            ctx.evaluation(("extended-element", compiled, kind))
+            ctx.cell("element-type-extended-after-a-null-terminated-parse")
+            base = f"{kind} E {{ uint8 a; }};\nstruct L {{ E items[]; uint8 t; }};"
+            det = {"text": base, "compiled": compiled, "workload": "extended-element"}
+            data1 = bytes([3, 4, 0, 9])
+            data2 = bytes([3, 1, 0, 7, 0, 0, 9, 9]) if kind == "struct" else bytes([3, 3, 7, 7, 0, 0, 9, 9])
+            try:
+                outs = []
+                for parse_first in (True, False):
+                    cs = lib.load(base, "<", False, compiled)
+                    if parse_first:
+                        lib.stable_repr(cs.L(data1)), lib.stable_repr(cs.E[None](data1))
+                    cs.E.add_field("b", cs.uint8)
+                    arr = cs.E[None](data2)
+                    outs.append((lib.stable_repr(arr), len(arr), lib.stable_repr(cs.E(data2))))
+            except Exception as e:  # noqa: BLE001
+                ctx.violation("history", f"extended-element-raises:{type(e).__name__}", dict(det, error=lib.exc_sig(e)))
+                continue
+            if outs[0] != outs[1]:
+                ctx.violation("history", "parse-result-depends-on-history", dict(det, got=repr(outs[0])[:300], want=repr(outs[1])[:300]))
+            else:
+                ctx.event("extended_elements_checked")
+
+
 def run(ctx):
+    if ctx.shard == 2:
+        union_bits_across_objects_and_extended_elements(ctx)
     if ctx.shard == 1:
         failed_evaluations(ctx)
         alias_used_before_rebinding(ctx)
@@ -800,6 +862,9 @@ def replay(ctx, detail):
         return
     if detail.get("workload") == "failed-evaluations":
         failed_evaluations(ctx)
+        return
+    if detail.get("workload") in ("union-bits-across-objects", "extended-element"):
+        union_bits_across_objects_and_extended_elements(ctx)
         return
     if detail.get("workload") == "failed-dumps":
         failed_dumps(ctx, 40)
